@@ -800,6 +800,10 @@ func (t *Table) DeleteColumn(colIndex int) error {
 		if colIndex >= len(t.Rows[i].Cells) {
 			return fmt.Errorf("第%d行只有%d个单元格，没有第%d列", i, len(t.Rows[i].Cells), colIndex)
 		}
+		// 不规则行：每一行（不仅是第一行）都必须至少保留一个单元格
+		if len(t.Rows[i].Cells) <= 1 {
+			return fmt.Errorf("第%d行只有%d个单元格，删除后该行将没有单元格", i, len(t.Rows[i].Cells))
+		}
 	}
 
 	// 删除网格列（表格可能没有网格，或网格列数少于单元格数）
@@ -840,6 +844,10 @@ func (t *Table) DeleteColumns(startIndex, endIndex int) error {
 	for i := range t.Rows {
 		if endIndex >= len(t.Rows[i].Cells) {
 			return fmt.Errorf("第%d行只有%d个单元格，没有第%d列", i, len(t.Rows[i].Cells), endIndex)
+		}
+		// 不规则行：每一行（不仅是第一行）都必须至少保留一个单元格
+		if len(t.Rows[i].Cells)-deleteCount < 1 {
+			return fmt.Errorf("第%d行只有%d个单元格，删除后该行将没有单元格", i, len(t.Rows[i].Cells))
 		}
 	}
 
